@@ -55,6 +55,56 @@ RULES = [
     ("recursion", "indirect", ["func zza(Signal s) { return zzb(s); }", "func zzb(Signal s) { return zza(s); }", "Signal zz1 = zza({x});"],
      ["recurs", "undefined"], False),
     ("bundle_duplicate_type", "literal", ['Bundle zz1 = {{ ("iron-plate", 1), ("iron-plate", 2) }};'], ["duplicate"], True),
+    ("bundle_duplicate_type", "nested_then_literal", ['Bundle zza = {{ ("iron-plate", 1), ("coal", 2) }};', 'Bundle zz1 = {{ zza, ("iron-plate", 3) }};'], ["duplicate"], True),
+    ("bundle_duplicate_type", "literal_then_nested", ['Bundle zza = {{ ("iron-plate", 1) }};', 'Bundle zz1 = {{ ("iron-plate", 3), zza }};'], ["duplicate"], True),
+    ("bundle_duplicate_type", "two_nested", ['Bundle zza = {{ ("iron-plate", 1) }};', 'Bundle zzb = {{ ("coal", 1), ("iron-plate", 4) }};', "Bundle zz1 = {{ zza, zzb }};"], ["duplicate"], True),
+    ("bundle_duplicate_type", "same_bundle_twice", ['Bundle zza = {{ ("iron-plate", 1) }};', "Bundle zz1 = {{ zza, zza }};"], ["duplicate"], True),
+    ("bundle_duplicate_type", "signal_variable", ['Signal zzs = ("iron-plate", 1);', 'Bundle zz1 = {{ zzs, ("iron-plate", 2) }};'], ["duplicate"], True),
+    ("bundle_duplicate_type", "computed_members", ['Bundle zza = {{ ("iron-plate", 1) }};', 'Bundle zz1 = {{ zza * 2, {x} | "iron-plate" }};'], ["duplicate"], True),
+    ("bundle_duplicate_type", "projections", ['Bundle zz1 = {{ {x} | "coal", ({x} + 1) | "coal" }};'], ["duplicate"], True),
+    ("bundle_op_bundle", "minus", ['Bundle zza = {{ ("iron-plate", 1) }};', 'Bundle zzb = {{ ("coal", 2) }};', "Bundle zzc = zza - zzb;"],
+     ["bundle"], True),
+    ("bundle_op_bundle", "times_self", ['Bundle zza = {{ ("iron-plate", 1) }};', "Bundle zzc = zza * zza;"], ["bundle"], True),
+    ("bundle_op_bundle", "literal_operand", ['Bundle zza = {{ ("iron-plate", 1) }};', 'Bundle zzc = zza + {{ ("coal", 2) }};'], ["bundle"], True),
+    ("bare_bundle_comparison", "in_logical_chain", ['Bundle zza = {{ ("iron-plate", 1) }};', "Signal zz1 = (zza > 0) && ({x} > 1);"], ["bundle", "any(", "all("], True),
+    ("bare_bundle_comparison", "against_signal", ['Bundle zza = {{ ("iron-plate", 1) }};', "Signal zz1 = zza == {x};"], ["bundle", "any(", "all("], True),
+    ("bundle_absent_member", "select_after_arith", ['Bundle zza = {{ ("iron-plate", 1) }};', 'Signal zz1 = (zza * 2)["coal"];'], ["not found", "not in", "bundle"], True),
+    ("bundle_absent_member", "select_in_expression", ['Bundle zza = {{ ("iron-plate", 1), ("coal", 3) }};', 'Signal zz1 = zza["coal"] + zza["steel-plate"];'], ["not found", "not in", "bundle"], True),
+    ("undefined_variable", "condition", ["Signal zz1 = (nope_var > 1) : {x};"], ["undefined", "not defined"], True),
+    ("undefined_variable", "bundle_member", ["Bundle zz1 = {{ {x}, nope_var }};"], ["undefined", "not defined"], True),
+    ("undefined_variable", "write_argument", ['Memory zzm: "iron-plate";', "zzm.write(nope_var);"], ["undefined", "not defined"], True),
+    ("undefined_variable", "write_condition", ['Memory zzm: "iron-plate";', 'zzm.write(("iron-plate", 1), when=nope_var > 0);'], ["undefined", "not defined"], True),
+    ("undefined_variable", "place_coordinate", ['Entity zzl = place("small-lamp", nope_var, 95);'], ["undefined", "not defined"], True),
+    ("undefined_variable", "loop_bound", ["for zzi in 0..nope_var {{ Signal zzx = 1; }}"], ["undefined", "not defined"], True),
+    ("undefined_variable", "call_argument", ["func zzf(Signal s) {{ return s + 1; }}", "Signal zz1 = zzf(nope_var);"], ["undefined", "not defined"], False),
+    ("undefined_variable", "enable", ['Entity zzl = place("small-lamp", 96, 96);', "zzl.enable = nope_var > 0;"], ["undefined", "not defined"], True),
+    ("undefined_memory", "latch_write", ["nope_mem.write(1, set={x} > 1, reset={x} < 0);"], ["undefined", "not defined"], True),
+    ("undefined_entity", "output", ["Bundle zz1 = nope_ent.output;"], ["undefined", "not defined", "unknown entity"], True),
+    ("redefinition", "memory_after_signal", ["Signal zz1 = 5;", 'Memory zz1: "iron-plate";'], ["already defined", "redefin", "duplicate"], True),
+    ("redefinition", "int_after_int", ["int zz1 = 5;", "int zz1 = 6;"], ["already defined", "redefin", "duplicate"], True),
+    ("redefinition", "entity_twice", ['Entity zz1 = place("small-lamp", 97, 97);', 'Entity zz1 = place("small-lamp", 98, 98);'], ["already defined", "redefin", "duplicate"], True),
+    ("redefinition", "function_twice", ["func zzf(Signal s) {{ return s + 1; }}", "func zzf(Signal s) {{ return s + 2; }}"], ["already defined", "redefin", "duplicate"], False),
+    ("redefinition", "bundle_after_signal", ["Signal zz1 = 5;", 'Bundle zz1 = {{ ("coal", 1) }};'], ["already defined", "redefin", "duplicate"], True),
+    ("assign_immutable", "int", ["int zz1 = 3;", "zz1 = 4;"], ["immutable", "cannot assign"], True),
+    ("assign_immutable", "bundle", ['Bundle zz1 = {{ ("coal", 1) }};', 'zz1 = {{ ("coal", 2) }};'], ["immutable", "cannot assign"], True),
+    ("argument_count", "zero_args", ["func zzf(Signal s) {{ return s + 1; }}", "Signal zz1 = zzf();"], ["expects", "argument"], False),
+    ("argument_count", "none_expected", ["func zzf() {{ return 5; }}", "Signal zz1 = zzf({x});"], ["expects", "argument"], False),
+    ("wrong_kind", "signal_parameter_gets_bundle", ["func zzf(Signal s) {{ return s + 1; }}", 'Bundle zza = {{ ("coal", 1) }};', "Signal zz1 = zzf(zza);"], ["expected", "argument", "type"], False),
+    ("wrong_kind", "signal_from_bundle", ['Bundle zza = {{ ("coal", 1) }};', "Signal zz1 = zza;"], ["cannot assign", "type"], True),
+    ("second_write", "conditional_writes", ['Memory zzm: "iron-plate";', 'zzm.write(("iron-plate", 1), when={x} > 1);', 'zzm.write(("iron-plate", 2), when={x} < 0);'],
+     ["multiple writes", "only one", "one write"], True),
+    ("second_write", "latch_and_write", ['Memory zzm: "iron-plate";', "zzm.write(1, set={x} > 1, reset={x} < 0);", 'zzm.write(("iron-plate", 2));'],
+     ["multiple writes", "only one", "one write"], True),
+    ("write_type_mismatch", "projected", ['Memory zzm: "iron-plate";', 'zzm.write({x} | "coal");'], ["mismatch", "expects"], True),
+    ("write_type_mismatch", "conditional", ['Memory zzm: "iron-plate";', 'zzm.write(("coal", 1), when={x} > 0);'], ["mismatch", "expects"], True),
+    ("zero_step", "descending", ["for zzi in 5..0 step 0 {{ Signal zzx = 1; }}"], ["step", "zero"], True),
+    ("non_comparison_condition", "number", ["Signal zz1 = 5 : {x};"], ["comparison"], True),
+    ("non_comparison_condition", "negation", ["Signal zz1 = (-{x}) : {x};"], ["comparison"], True),
+    ("non_comparison_condition", "projection", ['Signal zz1 = ({x} | "coal") : {x};'], ["comparison"], True),
+    ("unknown_signal", "bundle_member", ['Bundle zz1 = {{ ("bogus-signal", 1) }};'], ["unknown signal", "not a valid", "invalid"], True),
+    ("unknown_signal", "bundle_select", ['Bundle zza = {{ ("coal", 1) }};', 'Signal zz1 = zza["bogus-signal"];'], ["unknown signal", "not a valid", "invalid", "not found"], True),
+    ("reserved_signal", "bundle_select", ['Bundle zza = {{ ("coal", 1) }};', 'Signal zz1 = zza["signal-W"];'], ["reserved", "not found"], True),
+    ("reserved_signal", "write_value", ['Memory zzm;', 'zzm.write(("signal-W", 1));'], ["reserved"], True),
     ("bundle_op_bundle", "plus", ['Bundle zza = {{ ("iron-plate", 1) }};', 'Bundle zzb = {{ ("coal", 2) }};', "Bundle zzc = zza + zzb;"],
      ["bundle"], True),
     ("bare_bundle_comparison", "declaration", ['Bundle zza = {{ ("iron-plate", 1) }};', "Signal zz1 = zza > 0;"], ["bundle", "any(", "all("], True),
